@@ -857,6 +857,7 @@ func ruleMapOrder(c *Ctx) {
 		codecMapOrder(c, c.V5)
 	}
 	for _, b := range c.bodies() {
+		b.addressesInText(c.L)
 		l := c.L
 		ea := c.errFor(b)
 		b.errChainNonEmpty = func(v ssa.Value) bool {
